@@ -40,7 +40,7 @@ def casevar(s, rng):
 
 def run(ctx):
     q = ctx.quick
-    res = tlc.run('MC_Leaves', MC_CFG % (2 if q else 2), coverage=not q, timeout=3000)
+    res = tlc.run('MC_Leaves', MC_CFG % (2 if q else 3), coverage=not q, timeout=3000)
     ctx.add_mc('MC_Leaves(role)', res)
     rng = ctx.rng
     cases = []
